@@ -160,7 +160,10 @@ func c02Core(c *Check, P string, r *RouterRoles) {
 	}
 	// "outputs, but no publisher" decided inline is a failure as well
 	noPub, _ := NilEdges(D, func(x ssa.Value) bool {
-		return AllOrigins(x, func(o ssa.Value) bool { f := LoadedField(o); return f != nil && f.Type().String() == msgPkg+".Publisher" })
+		return AllOrigins(x, func(o ssa.Value) bool {
+			f := LoadedField(o)
+			return f != nil && f.Type().String() == msgPkg+".Publisher"
+		})
 	})
 	failEdges = append(failEdges, noPub...)
 	for i, n := range nacks {
@@ -528,7 +531,7 @@ func c02HelperResult(c *Check, id string, r *RouterRoles, pubErrCalls []ssa.Call
 		okEdges := append(append([]Edge{}, hOK...), empty...)
 		for i, ret := range Returns(H) {
 			k := fmt.Sprintf("return#%d", i)
-			vals := Origins(ret.Results[len(ret.Results)-1])
+			vals := RetOrigins(ret, len(ret.Results)-1)
 			for _, v := range vals {
 				if IsNilConst(v) {
 					// a nil that flows in via phi: require the guard at the return
@@ -577,7 +580,7 @@ func c02ChainHelper(c *Check, P string, r *RouterRoles) {
 	errCell := ResultCell(H, 1)
 	for i, ret := range Returns(H) {
 		k := fmt.Sprintf("helper return#%d", i)
-		for _, v := range Origins(ret.Results[1]) {
+		for _, v := range RetOrigins(ret, 1) {
 			ok := ResultOfAny(r.ChainInner, 1)(v) || (!IsNilConst(v) && errCell != nil)
 			if IsNilConst(v) {
 				okE, _ := NilEdges(H, ResultOfAny(r.ChainInner, 1))
@@ -585,7 +588,7 @@ func c02ChainHelper(c *Check, P string, r *RouterRoles) {
 			}
 			c.Report(ok, P+".O7", "CHAIN-HELPER-TRANSPARENT", H, ret.Pos(), k, "the helper returns the chain's error (nil only if the chain returned nil)")
 		}
-		for _, v := range Origins(ret.Results[0]) {
+		for _, v := range RetOrigins(ret, 0) {
 			c.Report(ResultOfAny(r.ChainInner, 0)(v) || IsNilConst(v), P+".O7", "CHAIN-HELPER-OUTPUTS", H, ret.Pos(), k, "the helper returns the chain's outputs")
 		}
 	}
